@@ -68,7 +68,8 @@ Min2(a, b) == IF a <= b THEN a ELSE b
 (*   X double-spend of funding input 1                                      *)
 (*   M mutual close            (spends the funding output)                  *)
 (*   U unilateral close by the counterparty: holder output + one HTLC the   *)
-(*     holder can claim + counterparty output                               *)
+(*     holder can claim + counterparty output; S alone (or H, H L alone)    *)
+(*     leaves it partly swept: "merely closing"                             *)
 (*   V unilateral close by the counterparty paying nothing to the holder    *)
 (*   S sweep of the holder output of U                                      *)
 (*   H spend of the HTLC output of U  (creates a second-level output)       *)
@@ -378,7 +379,10 @@ At(ev, id) == LET I == {i \in DOMAIN ev : id \in SeqToSet(ev[i].b)} IN
 Buried(K, h, e) == e # -1 /\ h + 1 - e >= K.D
 
 \* reference: a funding double-spend, a mutual close, or a unilateral close with every output of
-\* the node swept is buried by D blocks on the current best chain
+\* the node swept is buried by D blocks on the current best chain.  Nothing else, at no depth: the
+\* reference does not mention K.DX, so a confirmed funding, a unilateral close seen, a close with only
+\* some of the node's outputs swept keep the channel however long ago they happened (the very-deep-
+\* burial requests Bury(K.DX - 1 + o) exist to put exactly that to the implementation)
 RefDone(K, ev, h, d) ==
   LET at(k) == At(ev, TxId(k, d)) IN
   \/ at("F") = -1 /\ Buried(K, h, at("X"))
